@@ -28,7 +28,7 @@ def _sibling(plan, seed):
   if plan['kind'] != 'designer':
     return
   prob = twin.problem(twin.SIBLING.get(plan['space'], plan['space']), plan.get('metrics', 1))
-  d = twin.make(plan['designer'], prob, seed + 13, small=True)
+  d = twin.make(plan['designer'], prob, (seed + 13) % (2**31), small=True)
   tid = 0
   for count in plan['batches']:
     trials = []
@@ -128,7 +128,7 @@ def execute(plan, perturb, seed=None):
         prior = [benchmark_runner.EvaluateAndAddPriorStudy(
             benchmark_runner=benchmark_runner.BenchmarkRunner(
                 benchmark_subroutines=[benchmark_runner.GenerateAndEvaluate(2)], num_repeats=2),
-            benchmark_state_factory=state_factory, study_guid=plan['prior_study'], seed=int(seed) + 5)]
+            benchmark_state_factory=state_factory, study_guid=plan['prior_study'], seed=(int(seed) + 5) % (2**31))]
       if plan['protocol'] == 'generate_and_evaluate':
         subs = [benchmark_runner.GenerateAndEvaluate(plan['batch'])]
       elif plan['protocol'] == 'fill_then_partial':
@@ -140,7 +140,7 @@ def execute(plan, perturb, seed=None):
       if perturb and 'runner_reuse' in kinds:
         # "a runner can be applied to multiple benchmarks": the very same protocol objects first drove
         # another seeded study in this process
-        other = state_factory(seed=seed + 77)
+        other = state_factory(seed=(seed + 77) % (2**31))
         benchmark_runner.BenchmarkRunner(benchmark_subroutines=subs, num_repeats=3).run(other)
       if prior:
         benchmark_runner.BenchmarkRunner(benchmark_subroutines=prior, num_repeats=1).run(state)
@@ -200,7 +200,7 @@ class C14(runner.Check):
       name = 'cmaes'
     kinds = sorted(rng.sample(PERTURB, rng.choice([2, 3, 4, 8])))
     # edge seeds on purpose: 0 is falsy, 2**31-1 / 2**32-1 are range limits
-    seed = rng.randrange(1, 10**6) if rng.random() < 0.8 else rng.choice([0, 0, 0, 1, 2**31 - 1])
+    seed = rng.randrange(1, 10**6) if rng.random() < 0.8 else rng.choice([0, 0, 0, 1, 2**31 - 1, 2**32 - 1, 2**32 - 2])
     # A fresh interpreter with another PYTHONHASHSEED is the only way to perturb set /
     # dict-of-str iteration order; eagle and NSGA-II (per-parameter loops) get it more often.
     plan = {'designer': name, 'seed': seed, 'perturb': kinds,
@@ -219,7 +219,7 @@ class C14(runner.Check):
       if plan['prior_study']:
         plan['fresh_process'] = plan['fresh_process'] or rng.random() < 0.5
       if plan['seed'] >= 2**31:
-        plan['seed_type'] = 'int'
+        plan['seed_type'] = 'int' if plan['seed_type'] == 'np.int64' or plan['seed'] >= 2**32 else plan['seed_type']
       if name == 'cmaes':
         plan['repeats'] = 3
     else:
@@ -271,6 +271,14 @@ class C14(runner.Check):
       # A single other seed may collide by chance on a short discrete history;
       # the seed is ignored only if several other seeds all give the same output.
       others = [plan['seed'] + k for k in (1, 2, 3, 5, 8)]
+      if plan['seed'] > 2**32 - 10:
+        others = [plan['seed'] - k for k in (1, 2, 3, 5, 8)]  # stay inside the 32-bit range some designers require
+      if (plan['seed'] >= 2**31 - 1 and name in ('random', 'eagle', 'nsga2', 'cmaes') and plan.get('kind') == 'designer'
+          and plan.get('space') not in ('small', 'int10') and len(x) > 0
+          and execute(plan, perturb=False, seed=0) == x):
+        # a seed at the edge of the legal range must not fold onto another legal seed (continuous spaces:
+        # two different streams never coincide)
+        res.violate('edge-seed-collides-with-seed-zero', f'{name}: seed {plan["seed"]} gives exactly the output of seed 0', sig=sig)
       if len(x) > 0 and all(execute(plan, perturb=False, seed=s2) == x for s2 in others):
         res.violate('seed-has-no-effect', f'{name}: seeds {plan["seed"]} and {others} all give identical output', sig=sig)
       else:
